@@ -1,3 +1,6 @@
+#[cfg(grevm_verif)]
+use crate::verif::atomic::{AtomicUsize, Ordering};
+#[cfg(not(grevm_verif))]
 use std::sync::atomic::{AtomicUsize, Ordering};
 
 /// A monotonic cursor published by one scheduler coordinator.
@@ -45,6 +48,12 @@ impl PublishedCursorReader<'_> {
     #[inline]
     pub(crate) fn get(self) -> usize {
         self.0.load(Ordering::Acquire)
+    }
+
+    /// The current value without a hook point, for values a hook reports.
+    #[cfg(grevm_verif)]
+    pub(crate) fn verif_peek(self) -> usize {
+        self.0.peek()
     }
 }
 
@@ -314,7 +323,7 @@ mod tests {
 #[cfg(grevm_verif)]
 pub mod verif_access {
     #![allow(missing_docs, missing_debug_implementations, unreachable_pub)]
-    pub(crate) fn reader(cursor: &std::sync::atomic::AtomicUsize) -> super::PublishedCursorReader<'_> {
+    pub(crate) fn reader(cursor: &super::AtomicUsize) -> super::PublishedCursorReader<'_> {
         super::PublishedCursorReader(cursor)
     }
     pub struct CursorV(super::RewindableCursor);
